@@ -194,6 +194,13 @@ func (d *traceDom) Call(ip *Interp, fr *Frame, st *State, call *ast.CallExpr, c 
 	if d.r.step != nil && ev.Name != "" {
 		s = d.r.step(s, Ev{Name: ev.Name, Node: call, Call: call, C: c, Fr: fr, Args: args, Ip: ip, St: st})
 	}
+	// a call that produces result tokens makes them fresh: what an earlier test established about a token of the
+	// same name (an earlier iteration, an earlier call) no longer holds
+	for _, rv := range ev.Results {
+		if rv.Kind == VTok {
+			s = s.set("k:"+rv.S, "")
+		}
+	}
 	ns := st.WithDom(s)
 	if ev.Atomic {
 		return []Out{{St: ns, Vals: ev.Results}}, true
@@ -263,9 +270,18 @@ func (d *traceDom) Cond(ip *Interp, fr *Frame, st *State, e ast.Expr, branch boo
 		}
 		s = ns
 	}
-	if d.r.cond != nil {
-		tok, rel := condToken(ip, fr, st, e, branch)
-		if tok != "" {
+	tok, rel := condToken(ip, fr, st, e, branch)
+	if tok != "" {
+		// a token keeps what a test established about it: a second test of the same value (in a caller, after the
+		// helper that produced and tested it returned) cannot take the other branch
+		class := map[string]string{"nil": "n", "nonnil": "y", "true": "y", "false": "n"}[rel]
+		if prev := s.get("k:" + tok); prev != "" && class != "" && prev != class {
+			return st, false
+		}
+		if class != "" {
+			s = s.set("k:"+tok, class)
+		}
+		if d.r.cond != nil {
 			ns, ok := d.r.cond(s, fr, tok, rel)
 			if !ok {
 				return st, false
